@@ -186,40 +186,20 @@ where
 
                 // Copy the header, question and opt record from the
                 // additional section, but leave the answer and authority
-                // sections empty.
+                // sections empty. If that still does not fit, fall back to
+                // an OPT record without options and, as a last resort
+                // (requests with many questions), to an empty question
+                // section.
                 let source = response.as_message();
-                let mut target = mk_builder_for_target();
-
-                *target.header_mut() = source.header();
-
-                let mut target = target.question();
-                for rr in source.question() {
-                    target.push(rr?)?;
+                let mut target =
+                    Self::mk_truncated(response, &source, true, true)?;
+                if target.as_slice().len() > max_response_size {
+                    target =
+                        Self::mk_truncated(response, &source, true, false)?;
                 }
-
-                let mut target = target.additional();
-                if let Some(opt) = source.opt() {
-                    if let Err(err) = target.push(opt.as_record()) {
-                        warn!(
-                            "Error while truncating response: unable to push OPT record: {err}"
-                        );
-                        // As the client had an OPT record and RFC 6891 says
-                        // when truncating that there MUST be an OPT record,
-                        // attempt to push just the empty OPT record (as the
-                        // OPT record header still has value, e.g. the
-                        // requestors payload size field and extended rcode).
-                        if let Err(err) = target.opt(|builder| {
-                            builder.set_version(opt.version());
-                            builder.set_rcode(opt.rcode(response.header()));
-                            builder
-                                .set_udp_payload_size(opt.udp_payload_size());
-                            Ok(())
-                        }) {
-                            error!(
-                                "Error while truncating response: unable to add minimal OPT record: {err}"
-                            );
-                        }
-                    }
+                if target.as_slice().len() > max_response_size {
+                    target =
+                        Self::mk_truncated(response, &source, false, false)?;
                 }
 
                 let new_len = target.as_slice().len();
@@ -232,6 +212,60 @@ where
         }
 
         Ok(())
+    }
+
+    /// Builds the truncated form of a response: header, optionally the
+    /// question section, and the OPT record (with or without its options)
+    /// if the response has one.
+    fn mk_truncated(
+        response: &AdditionalBuilder<StreamTarget<NextSvc::Target>>,
+        source: &Message<&[u8]>,
+        with_question: bool,
+        with_options: bool,
+    ) -> Result<AdditionalBuilder<StreamTarget<NextSvc::Target>>, TruncateError>
+    {
+        let mut target = mk_builder_for_target();
+
+        *target.header_mut() = source.header();
+
+        let mut target = target.question();
+        if with_question {
+            for rr in source.question() {
+                target.push(rr?)?;
+            }
+        }
+
+        let mut target = target.additional();
+        if let Some(opt) = source.opt() {
+            let mut pushed = false;
+            if with_options {
+                match target.push(opt.as_record()) {
+                    Ok(()) => pushed = true,
+                    Err(err) => warn!(
+                        "Error while truncating response: unable to push OPT record: {err}"
+                    ),
+                }
+            }
+            if !pushed {
+                // As the client had an OPT record and RFC 6891 says when
+                // truncating that there MUST be an OPT record, push just
+                // the empty OPT record (as the OPT record header still has
+                // value, e.g. the requestors payload size field and
+                // extended rcode).
+                if let Err(err) = target.opt(|builder| {
+                    builder.set_version(opt.version());
+                    builder.set_rcode(opt.rcode(response.header()));
+                    builder.set_udp_payload_size(opt.udp_payload_size());
+                    Ok(())
+                }) {
+                    error!(
+                        "Error while truncating response: unable to add minimal OPT record: {err}"
+                    );
+                }
+            }
+        }
+
+        Ok(target)
     }
 
     fn preprocess(
